@@ -30,7 +30,7 @@ ASSUMPTIONS = c01.ASSUMPTIONS + [
 
 
 def budget(tier):
-    return {"examples": 300 if tier == "quick" else 4000}
+    return {"examples": 1000 if tier == "quick" else 8000}
 
 
 def essential_labels(tier):
